@@ -714,6 +714,201 @@ def interactions(rng):
     return out
 
 
+class _Compose:
+    """One packet assembled from two to four independently drawn 'atoms' (bit-field group, array of every element
+    kind x shape x padding, typedef, optional group, payload, custom / element-size for the Rust class), with the
+    atoms' size / count / flag headers either next to them or hoisted to the front, optionally split over a parent
+    and a child.  Fewer built-in restrictions than `Gen.gen_fields`: the point is construct INTERACTIONS."""
+
+    def __init__(self, rng, rust_only=True):
+        self.rng, self.rust_only = rng, rust_only
+        self.n = 0
+        self.decls = []
+
+    def fresh(self, p):
+        self.n += 1
+        return "%s%d" % (p, self.n)
+
+    def static_struct(self):
+        nm = self.fresh("Ss")
+        k = self.rng.choice([1, 2, 3])
+        fs = ["%s: 8" % self.fresh("m") for _ in range(k)]
+        if self.rng.random() < 0.3:
+            fs[0] = "_fixed_ = %d: 8" % self.rng.randrange(256)
+        self.decls.append("struct %s {\n  %s\n}\n" % (nm, ",\n  ".join(fs)))
+        return nm, k
+
+    def dynamic_struct(self):
+        nm = self.fresh("Sd")
+        a = self.fresh("m")
+        self.decls.append("struct %s {\n  _count_(%s): 8,\n  %s: 8[]\n}\n" % (nm, a, a))
+        return nm
+
+    def enum(self, w):
+        nm = self.fresh("En")
+        mx = (1 << w) - 1
+        kind = self.rng.choice(["closed", "open", "ranges"])
+        tags = ["A = 0", "B = %d" % min(3, mx)]
+        if kind == "open":
+            tags.append("Z = ..")
+        if kind == "ranges" and mx >= 9:
+            tags.append("R = 5..9")
+        self.decls.append("enum %s : %d {\n  %s\n}\n" % (nm, w, ",\n  ".join(tags)))
+        return nm
+
+    def chunk(self, hdr):
+        """hdr: list of (text, width); pads to a byte boundary with scalars / reserved / fixed"""
+        used = sum(w for _, w in hdr)
+        out = [t for t, _ in hdr]
+        free = (-used) % 8
+        if free == 0 and (not hdr or self.rng.random() < 0.3):
+            free = 8
+        while free > 0:
+            w = self.rng.randint(1, free)
+            r = self.rng.random()
+            if r < 0.6:
+                out.append("%s: %d" % (self.fresh("s"), w))
+            elif r < 0.8:
+                out.append("_reserved_: %d" % w)
+            else:
+                out.append("_fixed_ = %d: %d" % (self.rng.randrange(1 << w), w))
+            free -= w
+        if not any("_size_" in t or "_count_" in t for t in out):
+            self.rng.shuffle(out)
+        return out
+
+    def atom(self, kind):
+        """-> dict(hdr=[(text, width)], fields=[...], static=bool, greedy=bool, payload=bool)"""
+        rng = self.rng
+        if kind == "chunk":
+            hdr = []
+            if rng.random() < 0.4:
+                w = rng.choice([8, 16])
+                hdr.append(("%s: %s" % (self.fresh("e"), self.enum(w)), w))
+            return dict(hdr=[], fields=self.chunk(hdr), static=True, greedy=False, payload=False)
+        if kind == "array":
+            el = rng.choice(["8", "16", "24", "enum8", "enum16", "sstruct", "dstruct"])
+            shape = rng.choice(["static", "count", "size", "unknown"])
+            x = self.fresh("x")
+            esize = None
+            if el in ("8", "16", "24"):
+                ety, esize = el, int(el) // 8
+            elif el.startswith("enum"):
+                ety, esize = self.enum(int(el[4:])), int(el[4:]) // 8
+            elif el == "sstruct":
+                ety, esize = self.static_struct()
+            else:
+                ety = self.dynamic_struct()
+            hdr, cnt = [], rng.randint(1, 3)
+            if shape == "count":
+                hdr.append(("_count_(%s): %d" % (x, rng.choice([3, 8, 8, 12, 16])), 0))
+            elif shape == "size":
+                hdr.append(("_size_(%s): %d" % (x, rng.choice([4, 8, 8, 16])), 0))
+            hdr = [(t, int(t.split(":")[1])) for t, _ in hdr]
+            fields = ["%s: %s[%s]" % (x, ety, cnt if shape == "static" else "")]
+            pad = rng.random() < 0.35
+            if pad:
+                base = (esize or 3) * (cnt if shape == "static" else 2)
+                fields.append("_padding_[%d]" % (base + rng.choice([0, 1, 2, 5])))
+            static = pad or (shape == "static" and esize is not None)
+            greedy = shape == "unknown" and not pad
+            return dict(hdr=hdr, fields=fields, static=static, greedy=greedy, payload=False)
+        if kind == "typedef":
+            if rng.random() < 0.5:
+                nm, _ = self.static_struct()
+                return dict(hdr=[], fields=["%s: %s" % (self.fresh("t"), nm)], static=True, greedy=False, payload=False)
+            return dict(hdr=[], fields=["%s: %s" % (self.fresh("t"), self.dynamic_struct())], static=False, greedy=False, payload=False)
+        if kind == "optional":
+            k = rng.choice([1, 1, 2])
+            hdr, fields = [], []
+            for _ in range(k):
+                fl = self.fresh("f")
+                hdr.append(("%s: 1" % fl, 1))
+                for _ in range(rng.choice([1, 2])):
+                    r = rng.random()
+                    ty = str(rng.choice([8, 16, 32])) if r < 0.5 else (self.enum(8) if r < 0.75 else self.static_struct()[0])
+                    fields.append("%s: %s if %s = %d" % (self.fresh("o"), ty, fl, rng.choice([0, 1])))
+            return dict(hdr=hdr, fields=fields, static=False, greedy=False, payload=False)
+        if kind == "payload":
+            if rng.random() < 0.5:
+                w = rng.choice([8, 16])
+                mod = rng.random() < 0.3
+                return dict(hdr=[("_size_(_payload_): %d" % w, w)], fields=["_payload_" + (": [+%d]" % rng.randint(1, 3) if mod else "")],
+                            static=False, greedy=False, payload=True)
+            return dict(hdr=[], fields=[rng.choice(["_payload_", "_body_"])], static=False, greedy=True, payload=True)
+        raise ValueError(kind)
+
+    def build(self):
+        rng = self.rng
+        kinds = ["chunk", "array", "array", "typedef", "optional", "payload"]
+        atoms = [self.atom(rng.choice(kinds)) for _ in range(rng.randint(2, 4))]
+        # at most one payload, at most one greedy atom, only static atoms after the greedy one
+        seen_pay, out = False, []
+        for a in atoms:
+            if a["payload"]:
+                if seen_pay:
+                    continue
+                seen_pay = True
+            out.append(a)
+        atoms = out
+        g = [i for i, a in enumerate(atoms) if a["greedy"]]
+        if g:
+            first = g[0]
+            atoms = [a for i, a in enumerate(atoms) if i <= first or (a["static"] and not a["greedy"] and not a["payload"])]
+        hoist = rng.random() < 0.4
+        fields, front = [], []
+        for a in atoms:
+            if a["hdr"]:
+                if hoist:
+                    front += a["hdr"]
+                else:
+                    for h in a["hdr"]:
+                        fields += self.chunk([h]) if ("_size_" in h[0] or "_count_" in h[0]) else []
+                    rest = [h for h in a["hdr"] if not ("_size_" in h[0] or "_count_" in h[0])]
+                    if rest:
+                        fields += self.chunk(rest)
+            fields += a["fields"]
+        if front:
+            sc = [h for h in front if "_size_" in h[0] or "_count_" in h[0]]
+            fl = [h for h in front if h not in sc]
+            pre = []
+            for h in sc:
+                pre += self.chunk([h])
+            if fl:
+                pre += self.chunk(fl)
+            fields = pre + fields
+        name = self.fresh("Cp")
+        pay_idx = [i for i, f in enumerate(fields) if f.startswith("_payload_") or f == "_body_"]
+        if pay_idx and rng.random() < 0.5:
+            # split: the parent keeps everything, a child fills the payload under a constraint on a fresh key field
+            key = self.fresh("k")
+            self.decls.append("packet %s {\n  %s\n}\n" % (name, ",\n  ".join(["%s: 8" % key] + fields)))
+            kid = _Compose(rng, self.rust_only)
+            kid.n = self.n + 100
+            ka = [kid.atom(rng.choice(["chunk", "array", "typedef"])) for _ in range(rng.randint(1, 2))]
+            kf = []
+            for a in ka:
+                for h in a["hdr"]:
+                    kf += kid.chunk([h])
+                kf += a["fields"]
+                if a["greedy"]:
+                    break
+            self.decls += kid.decls
+            self.decls.append("packet %s : %s (%s = %d) {\n  %s\n}\n" % (self.fresh("Ck"), name, key, rng.randrange(256), ",\n  ".join(kf)))
+        else:
+            self.decls.append("packet %s {\n  %s\n}\n" % (name, ",\n  ".join(fields)))
+        return self
+
+
+def composed(rng, n):
+    """n descriptions, each one composed packet (see `_Compose`), random byte order"""
+    out = []
+    for _ in range(n):
+        c = _Compose(rng).build()
+        out.append(rng.choice(["little", "big"]) + "_endian_packets\n\n" + "\n".join(c.decls))
+    return out
+
+
 def recursive_descriptions(rng):
     """Legal recursion: a cycle of declarations is allowed when it goes through an array without static
     size (nested TLV patterns).  Returned in one declaration order; the check permutes them."""
